@@ -429,7 +429,74 @@ def run_dtype_case(case):
     return out
 
 
+_NM_MODEL = fsic.build_model(fsic.parse_model('size = 0.5 * size[-1] + index\nY = size + span * 2\nvalues = Y - 1'))
+_NM_TRACED = type('TracedNM', (TracerMixin, _NM_MODEL), {})
+_NM_EMPTY = type('TracedNone', (TracerMixin, _NM_MODEL), {'TRACE_VARIABLES': []})
+
+
+@robust()
+def run_names_case(case):
+    """Variables named like attributes of the object (size, index, span, values), a traced name given twice, and a class that
+    traces no variable at all: the solution is untouched, the labels are start, before, 0..k, end, snapshot j holds the values
+    after pass j (final = stored solution), and the table view of a trace has one column per traced name."""
+    def mk(cls):
+        m = cls(range(5))
+        m['size'] = [1.0 + k for k in range(5)]
+        m['index'] = [3.0 + k for k in range(5)]
+        m['span'] = [0.5 * k for k in range(5)]
+        return m
+
+    cls = _NM_EMPTY if case['trace'] == 'class-empty-list' else _NM_TRACED
+    arg = True if case['trace'] == 'class-empty-list' else case['trace']
+    a, b = mk(cls), mk(_NM_MODEL)
+    kw = dict(max_iter=4, failures='ignore')
+    ra = refsolve.call_outcome(a.solve, trace=arg, **kw)
+    rb = refsolve.call_outcome(b.solve, **kw)
+    out = []
+    if canon(ra) != canon(rb) or any(canon(a[n]) != canon(b[n]) for n in b.index):
+        out.append(('names:differential', canon(rb)[:2], canon(ra)[:2], 'tracing changed the solution (or raised) for variables named like attributes'))
+        return out
+    names = [] if case['trace'] == 'class-empty-list' else (list(a.names) if arg is True else ([arg] if isinstance(arg, str) else list(arg)))
+    for pos in range(1, 5):
+        tr = a['trace'][pos]
+        k = int(a.iterations[pos])
+        want_labels = ['start', 'before'] + list(range(0, k + 1)) + ['end']
+        labels = list(tr.index)
+        if [str(x) for x in labels] != [str(x) for x in want_labels]:
+            out.append(('names:labels', want_labels, labels, 'snapshot labels of a solved period'))
+            break
+        if list(tr.names) != names:
+            out.append(('names:traced-names', names, list(tr.names), 'the trace names other variables than asked for'))
+            break
+        vals = np.asarray(tr.values)
+        if names:
+            final = [float(a[n][pos]) for n in names]
+            got = [float(x) for x in vals[:, -1]]
+            if got != final:
+                out.append(('names:final-snapshot', final, got, 'the final snapshot is not the stored solution'))
+                break
+        try:
+            df = tr.to_dataframe()
+        except Exception as e:
+            out.append(('names:table:%s' % type(e).__name__, 'a table', repr(e)[:120], 'the table view of a trace fails'))
+            break
+        if df.shape != (len(labels), len(names)) or [str(c) for c in df.columns] != names or (names and not np.array_equal(np.asarray(df.values, dtype=float), np.asarray(vals, dtype=float).T)):
+            out.append(('names:table', [len(labels), names], [list(df.shape), [str(c) for c in df.columns]], 'the table view of a trace does not have one column per traced name holding its snapshots'))
+            break
+    return out
+
+
+def run_names(acc, tier):
+    for trace in (True, ['size', 'Y'], 'index', ['values', 'span', 'size'], ['Y', 'size', 'Y'], ('Y', 'Y'), 'class-empty-list'):   # (trace=[] itself is falsy: tracing off)
+        case = dict(kind='names', trace=trace if not isinstance(trace, tuple) else list(trace))
+        acc.evaluations += 1
+        acc.nontrivial += 1
+        for key, exp, obs, what in run_names_case(case):
+            acc.violation(key, case, exp, obs, what)
+
+
 def run_dtypes(acc, tier):
+    run_names(acc, tier)
     for dtype in ('int64', 'float32', 'complex', 'float64'):
         for trace in (True, ['Y', 'Z'], ['X', 'Y']):
             for errors in ('raise', 'ignore'):
@@ -478,6 +545,8 @@ def run_one(case):
         return run_case(case)[0]
     if case['kind'] == 'dtype':
         return run_dtype_case(case)
+    if case['kind'] == 'names':
+        return run_names_case(case)
     return run_cat_case(case)
 
 
